@@ -294,10 +294,21 @@ def guards_at(func, node):
     return out + guards_of(func, cur)
 
 
-def iteration_source(func, name):
+def iteration_source(func, name, at=None):
     """the collection a loop / comprehension variable `name` runs over (enumerate / zip position
-    resolved), or None"""
-    for n in ast.walk(func):
+    resolved), or None. With `at`: the innermost loop / comprehension enclosing that node."""
+    if at is not None:
+        cands = []
+        cur = at
+        while cur is not None and cur is not func:
+            if isinstance(cur, ast.For):
+                cands.append(cur)
+            if isinstance(cur, (ast.ListComp, ast.SetComp, ast.GeneratorExp, ast.DictComp)):
+                cands.extend(cur.generators)
+            cur = getattr(cur, '_parent', None)
+    else:
+        cands = [n for n in ast.walk(func) if isinstance(n, (ast.For, ast.comprehension))]
+    for n in cands:
         if isinstance(n, (ast.For, ast.comprehension)):
             tg, it = n.target, n.iter
             if isinstance(tg, ast.Name) and tg.id == name:
